@@ -73,7 +73,30 @@ def c12(tier, seed):
                             'complement = intersection of complements with least witness (the literal all-pairs reading is unsatisfiable for interval lists)']}
 
 
-PROPS = {'C11': c11, 'C12': c12, 'C20': c20}
+def c15(tier, seed):
+    jobs = []
+    for ri in (0, 1):
+        for si in (0, 1):
+            for g in (0, 1, 2, 3):
+                jobs.append(J('vh_c15_basic', [ri, si, g], 'basic r=%s s=%s group=%d' % ('inf' if ri else 'fin', 'inf' if si else 'fin', g)))
+    ks = list(range(0, 13)) + [100, 65535, 2 ** 31 - 1, 2 ** 32 - 2] if tier == 'quick' else list(range(0, 65)) + [100, 1000, 65535, 65536, 2 ** 31 - 1, 2 ** 31, 2 ** 32 - 2]
+    for ri in (0, 1):
+        for k in ks:
+            jobs.append(J('vh_c15_scale', [ri, 0, k], 'scale r=%s k=%d full-width parameters' % ('inf' if ri else 'fin', k), cost=5))
+        jobs.append(J('vh_c15_scale', [ri, 1, 7, 15], 'scale r=%s symbolic k<=7, parameters <= 15' % ('inf' if ri else 'fin'), cost=50))
+        jobs.append(J('vh_c15_scale_overflow', [ri], 'scale overflow panics r=%s' % ('inf' if ri else 'fin'), cost=20))
+    b = 6 if tier == 'quick' else 12
+    for ri in (0, 1):
+        for si in (0, 1):
+            jobs.append(J('vh_c15_mul', [ri, si, b], 'mul/right_mul_is_exact r=%s s=%s parameters <= %d' % ('inf' if ri else 'fin', 'inf' if si else 'fin', b), cost=100))
+    return {'jobs': jobs,
+            'bounds': 'contains/includes/add/shift: all parameters and members symbolic over the full u32 range; scale: concrete k in %s with full-width symbolic parameters, '
+                      'and symbolic k <= 7 with parameters <= 15; mul and right_mul_is_exact: parameters <= %d, members <= %d, x <= %d '
+                      '(symbolic x symbolic multiplication is bounded in width, not decided at 32 bits)' % (ks, b, 2 * b, b * b + 2 * b + 2),
+            'outside': ['mul / right_mul_is_exact with parameters above %d' % b, 'scale factors k outside the listed set when parameters exceed 15']}
+
+
+PROPS = {'C15': c15, 'C11': c11, 'C12': c12, 'C20': c20}
 
 
 def get(pid, tier, seed):
